@@ -1176,6 +1176,11 @@ func main() {
 		finish(os.Args[5], t0)
 		return
 	}
+	if len(os.Args) >= 6 && os.Args[1] == "handover" {
+		runHandover(os.Args[2], os.Args[3], os.Args[4], os.Args[5])
+		finish(os.Args[5], t0)
+		return
+	}
 	fmt.Fprintln(os.Stderr, "usage: c15 select <cases.ndjson> <out.json> | c15 forge <scripts.ndjson> <cases.ndjson|-> <config.json> <out.json>")
 	os.Exit(2)
 }
